@@ -273,7 +273,7 @@ def run(L, tier):
     repo = Repo(L.repo)
     with open(os.path.join(VERIF, "spec", "ranges.json")) as f:
         spec = json.load(f)
-    r1_r2(L, repo, spec)
-    r3_validate_first(L, repo)
-    r4_send(L, repo, tier)
-    r5_c_bound(L, repo, spec)
+    L.stage(r1_r2, L, repo, spec)
+    L.stage(r3_validate_first, L, repo)
+    L.stage(r4_send, L, repo, tier)
+    L.stage(r5_c_bound, L, repo, spec)
